@@ -50,11 +50,21 @@ ASSUMPTIONS = [
 
 def impl(line):
     op, hdr, size = line.split(" ")
-    try:
-        rs = FileResponseMixin.parse_range(dec_text(hdr), int(size))
-    except Exception as exc:  # noqa
-        return exc_name(exc)
-    return "ok " + (",".join("%d-%d" % (a, b) for a, b in rs) if rs else "-")
+    def once():
+        try:
+            rs = FileResponseMixin.parse_range(dec_text(hdr), int(size))
+        except Exception as exc:  # noqa
+            return exc_name(exc), None
+        return "ok " + (",".join("%d-%d" % (a, b) for a, b in rs) if rs else "-"), rs
+
+    first, rs = once()
+    # the answer is a function of (header, size) alone: the caller scribbling over the list it was handed, and
+    # asking again, must not change it (a memoised result shared between callers would)
+    if isinstance(rs, list):
+        rs.append((10 ** 9, 10 ** 9 + 1))
+        rs.reverse()
+    second, _ = once()
+    return first if first == second else "REPEAT first [%s] second [%s]" % (first, second)
 
 
 # ---- oracle: the property stated directly, independent of the Lean model -------------
@@ -66,6 +76,8 @@ GRAMMAR = re.compile(r"bytes=[ \t]*%s(?:[ \t]*,[ \t]*%s)*[ \t]*" % (SPEC, SPEC))
 def oracle(line, out):
     _, hdr, size = line.split(" ")
     text, n = dec_text(hdr), int(size)
+    if out.startswith("REPEAT"):
+        return "the same header and size resolved differently the second time: %s" % out[:200]
     if out.startswith("crash") or out == "hang":
         return "parse_range raised a non-HTTP error: %s" % out
     if out.startswith("http"):
